@@ -34,7 +34,34 @@ __CPROVER_ensures(g_refusals + g_cw == 1)
 __CPROVER_ensures(g_refusals == 1 ==> (__CPROVER_return_value == invalid_thread_id && (ec->is_throws ? vx_exc == g_refuse_tok : vx_exc == 0)))
 /* ... or handed, exactly once, to create_work on THIS pool's scheduler with the caller's data */
 __CPROVER_ensures(g_cw == 1 ==> (g_cw_sched == self->sched_ && g_cw_data == data))
+/* a pool that has worker threads accepts work whatever their run states are: "not every worker is in state running" (some are
+ * suspended / sleeping, C19) is no reason to turn a task away -- it runs on the other workers or after resume */
+__CPROVER_ensures(g_refusals == 1 ==> self->thread_count_ == 0)
 __CPROVER_assigns(g_cw, g_cw_sched, g_cw_data, g_cw_threw, g_refusals, vx_exc, ec->value)
+//@LIFT body
+#endif
+
+#ifdef U_POOL_CREATE_THREAD
+struct pool { struct scheduler *sched_; long thread_count_; };
+static long g_cw; static struct scheduler *g_cw_sched; static struct init_data *g_cw_data; static bool g_cw_threw; static thread_id_ref *g_cw_id;
+static bool g_sched_running;
+#define sched_is_state(s, st) (g_sched_running)
+static void detail_create_thread(struct scheduler *s, struct init_data *d, thread_id_ref *id, struct error_code *ec)
+{
+  VX_ASSERT(vx_exc == 0, "no call while an exception is propagating");
+  g_cw++; g_cw_sched = s; g_cw_data = d; g_cw_id = id;
+  if (nondet_bool()) { g_cw_threw = true; vx_exc = g_refuse_tok; return; }
+  *id = nondet_int();
+}
+//@FUNC
+void pool_create_thread(struct pool *self, struct init_data *data, thread_id_ref *id, struct error_code *ec)
+__CPROVER_requires(g_cw == 0 && g_refusals == 0 && vx_exc == 0 && !g_cw_threw && g_refuse_tok != 0)
+__CPROVER_ensures(g_refusals + g_cw == 1)
+__CPROVER_ensures(g_refusals == 1 ==> (ec->is_throws ? vx_exc == g_refuse_tok : vx_exc == 0))
+__CPROVER_ensures(g_cw == 1 ==> (g_cw_sched == self->sched_ && g_cw_data == data && g_cw_id == id))
+/* see pool_create_work: a pool with worker threads never turns work away because some of them are suspended */
+__CPROVER_ensures(g_refusals == 1 ==> self->thread_count_ == 0)
+__CPROVER_assigns(g_cw, g_cw_sched, g_cw_data, g_cw_id, g_cw_threw, g_refusals, vx_exc, ec->value, *id)
 //@LIFT body
 #endif
 
@@ -88,6 +115,17 @@ void harness(void)
   if (g_cw) VX_REACH("forwarded_to_own_scheduler");
   if (g_refusals && vx_exc) VX_REACH("refused_by_exception");
   if (g_refusals && !vx_exc) VX_REACH("refused_by_error_code");
+  if (g_cw && p.thread_count_ > 0 && !g_sched_running) VX_REACH("accepted_while_some_worker_is_not_running");
+#endif
+#ifdef U_POOL_CREATE_THREAD
+  static struct pool p; thread_id_ref the_id = nondet_int();
+  p.sched_ = nondet_bool() ? &s1 : &s2; p.thread_count_ = nondet_long(); g_sched_running = nondet_bool();
+  g_cw = 0; g_cw_sched = NULL; g_cw_data = NULL; g_cw_threw = false; g_cw_id = NULL;
+  pool_create_thread(&p, &d, &the_id, &ec);
+  if (g_cw) VX_REACH("forwarded_to_own_scheduler");
+  if (g_refusals && vx_exc) VX_REACH("refused_by_exception");
+  if (g_refusals && !vx_exc) VX_REACH("refused_by_error_code");
+  if (g_cw && p.thread_count_ > 0 && !g_sched_running) VX_REACH("accepted_while_some_worker_is_not_running");
 #endif
 #ifdef U_DETAIL_CREATE_WORK
   static struct thread_self me;
